@@ -493,7 +493,7 @@ func TestWriterFaults(t *testing.T) {
 			}
 			full := ok.data
 			earlierRefusedWrite(c)
-			plan := core.WriterPlan{FailAt: c.Int("disk.failAt", 0, len(full)), Short: c.Bool("disk.short"), ReaderFrom: c.Bool("disk.readerFrom")}
+			plan := core.WriterPlan{FailAt: c.Int("disk.failAt", 0, len(full)), Short: c.Bool("disk.short"), ReaderFrom: c.Bool("disk.readerFrom"), Transient: c.Chance("disk.transient", 1, 4)}
 			c.Event("%s; %d bytes; fail at %d short=%v rf=%v", lb.Describe(), len(full), plan.FailAt, plan.Short, plan.ReaderFrom)
 			wr := writeBundle(c, lb.ToRepo(), plan)
 			if wr.panicI != nil {
@@ -508,7 +508,9 @@ func TestWriterFaults(t *testing.T) {
 				if plan.FailAt < len(full) && wr.err == nil {
 					c.Violation("write-failure-swallowed", "Bundle.WriteTo", "destination failed after %d of %d bytes, WriteTo returned nil", plan.FailAt, len(full))
 				}
-				if !bytes.HasPrefix(full, wr.data) {
+				if !bytes.HasPrefix(full, wr.data) && !(plan.Transient && wr.w.CallsAfterFail > 0) {
+					// (after a one-shot failure the device works again: whether further writes are
+					// attempted is not judged, so the prefix clause applies only if none was)
 					c.Violation("not-a-prefix", "Bundle.WriteTo", "bytes accepted before the failure are not a prefix of the fault-free output")
 				}
 				if plan.FailAt == len(full) && (wr.err != nil || !bytes.Equal(wr.data, full)) {
@@ -850,7 +852,7 @@ func TestReencode(t *testing.T) {
 				return
 			}
 			secs := p.RawSections(data)
-			op := c.PickStr("reencode.op", "unknown-section", "unknown-section", "reorder", "duplicate", "drop", "identity", "unknown-wrap", "length-cancel", "alias-index", "alias-index", "foreign-known-section", "variants-axes", "status-text")
+			op := c.PickStr("reencode.op", "unknown-section", "unknown-section", "reorder", "duplicate", "drop", "identity", "unknown-wrap", "length-cancel", "alias-index", "alias-index", "foreign-known-section", "variants-axes", "status-text", "head-of-other-version")
 			switch op {
 			case "unknown-section":
 				pos := c.Int("reencode.pos", 0, len(secs)-1) // anywhere before "responses"
@@ -1043,6 +1045,16 @@ func TestReencode(t *testing.T) {
 				c.Fault("reencode-drop-section")
 			}
 			blob := refbundle.Build(p.Version, p.PrimaryURL, secs)
+			if op == "head-of-other-version" {
+				// the first byte (top-level array head) of the other format version, or the other
+				// version's version string under this version's head: a file of neither version
+				if c.Bool("reencode.headByte") {
+					blob[0] ^= 0x03 // 0x85 <-> 0x86
+				} else {
+					blob[12] ^= 0x03 // '1' <-> '2'
+				}
+				c.Fault("reencode-head-of-other-version")
+			}
 			if op == "status-text" {
 				// one response's three status bytes overwritten in place by text that some number
 				// parsers accept (sign, exponent, blanks, non-ASCII digits): every offset stays valid
@@ -1175,6 +1187,64 @@ func TestConcurrentReaders(t *testing.T) {
 				judgeRead(c, blobs[i], results[i], errs[i], pi, 0, "bundle.Read/concurrent")
 			}
 			c.Sig("%s", sched)
+		})
+	})
+}
+
+// TestScale: sizes at which implementations keep thresholds (table capacities,
+// pre-allocation limits, chunk sizes): a site of tens of thousands of small
+// resources with pairwise distinct header values, or a few resources of one
+// to three MiB. Written, checked by the independent parser, read back and
+// compared. Few runs, each large.
+func TestScale(t *testing.T) {
+	rapid.Check(t, func(t *rapid.T) {
+		core.Run(t, "bundle/scale", func(c *core.Ctx) {
+			lb := &gen.LBundle{Order: map[string][]int{}, Version: c.PickStr("bundle.version", "b1", "b2")}
+			n, bodyLen := c.PickInt("scale.many", 33000, 40000, 66000), 3
+			if c.Chance("scale.fewLarge", 1, 3) {
+				n, bodyLen = c.Int("scale.few", 1, 3), c.PickInt("scale.bodyLen", 1<<20, 1<<20+1, 3<<20+7)
+			}
+			for i := 0; i < n; i++ {
+				u := fmt.Sprintf("https://example.com/site/%d", i)
+				body := make([]byte, bodyLen)
+				core.FillPattern(body, uint64(i)+1)
+				lb.Order[u] = []int{i}
+				lb.Exchanges = append(lb.Exchanges, gen.LExchange{URL: u, Resp: gen.LResp{Status: 200, Body: body,
+					Headers: []gen.HV{{Name: "Content-Type", Value: "text/plain"}, {Name: "Etag", Value: fmt.Sprintf("\"e%d\"", i)}, {Name: "Last-Modified", Value: fmt.Sprintf("lm-%d", i)}}}})
+			}
+			lb.Primary = lb.Exchanges[0].URL
+			c.Event("%s", lb.Describe())
+			var buf bytes.Buffer
+			var n64 int64
+			var werr error
+			if pi := c.Guard("Bundle.WriteTo", func() { n64, werr = lb.ToRepo().WriteTo(&buf) }); pi != nil {
+				c.CheckTotal("Bundle.WriteTo", 0, pi, 0)
+			}
+			if werr != nil {
+				c.Violation("write-error", "Bundle.WriteTo/scale", "writer refused a valid bundle: %v", werr)
+			}
+			data := buf.Bytes()
+			if c.Oracle("C04") {
+				checkWellFormed(c, written{data: data, n: n64}, "scale")
+			}
+			rb, rerr, pi, alloc, _ := readBundle(c, data, core.ReaderPlan{ErrAt: -1})
+			if c.Oracle("C10", "C05", "C03") {
+				c.CheckTotal("bundle.Read", len(data), pi, alloc)
+			}
+			if pi != nil {
+				return
+			}
+			if rerr != nil {
+				if c.Oracle("C03", "C05") {
+					c.Violation("read-error", "bundle.Read/scale", "reader rejected the writer's output (%d exchanges, %d bytes): %v", n, len(data), rerr)
+				}
+				return
+			}
+			if c.Oracle("C03", "C05") {
+				sameAsModel(c, rb, lb, "scale")
+			}
+			c.Outcome("nt:ok")
+			c.Sig("scale/%s/%d/%d", lb.Version, n, bodyLen)
 		})
 	})
 }
